@@ -867,7 +867,7 @@ func init() {
 	_ = wire.NOTAG
 	register(&Property{ID: "C09", Level: "model_checking",
 		Technique: "stateless model checking of the real client (Rpc callers, recv, send goroutines) against a scripted peer under the controlled scheduler, all schedules within a preemption bound",
-		Rule:      "k<=3 (thorough 5) caller goroutines with 1-2 calls each (read/stat/walk/write/clunk on distinct fids), the peer holding the first round until all are outstanding and answering in every permutation (k<=4; every 5th of the 120 for k=5), one frame per write or all in one, each reply matching/Rerror/wrong type; every schedule with at most P deviations from the deterministic default scheduler (delay bounding: every non-default scheduling choice counts, preemptive or not; select-case choices free) from the first call to the last return; pipelined Tag interface with 2-3 requests, and with 30, 40 and 100 (thorough 300) requests whose consumer starts late; one run of 3000 (thorough 70000) consecutive calls for tag and slot recycling. distinct = distinct per-object operation orders ; results of earlier calls (errors included) re-read after later calls on the same client",
+		Rule:      "k<=3 (thorough 5) caller goroutines with 1-2 calls each (read/stat/walk/write/clunk on distinct fids), the peer holding the first round until all are outstanding and answering in every permutation (k<=4; every 5th of the 120 for k=5), one frame per write or all in one, each reply matching/Rerror/wrong type; every schedule with at most P deviations from the deterministic default scheduler (delay bounding: every non-default scheduling choice counts, preemptive or not; select-case choices free) from the first call to the last return; pipelined Tag interface with 2-3 requests, and with 30, 40 and 100 (thorough 300) requests whose consumer starts late; one run of 3000 (thorough 70000) consecutive calls for tag and slot recycling. distinct = distinct per-object operation orders ; results of earlier calls (errors included) re-read after later calls on the same client ; two Tags interleaved in every pattern of 4 requests x every answer order that keeps each tag first-in first-out",
 		Assumptions: []string{"code between two synchronisation operations is atomic (race-free executions)", "callers use distinct fids so a reply identifies its request"},
 		Scenarios:   c09Scenarios, QuickS: 110, ThoroughS: 1500})
 }
